@@ -89,9 +89,10 @@ package arp
 // C03: capture filter text: "arp", or "arp src net " + subnet
 //@ func BPFFilter
 //@   props C03
-//@   observe (*net.IPNet).String, fmt.Sprintf
+//@   modifies nothing
+//@   observe (*net.IPNet).String
 //@   entry row bare: [] when r.DstSubnet == nil && ret0 == "arp" && ret1 == 64 -> exit
-//@   entry row net:  [call String(r.DstSubnet) as (ns) ; call fmt.Sprintf("arp src net %s", bind_a) as (f)] when r.DstSubnet != nil && len(a) == 1 && astype(a[0], string) == ns && ret0 == f && ret1 == 64 -> exit
+//@   entry row net:  [call String(r.DstSubnet) as (ns)] when r.DstSubnet != nil && ret0 == "arp src net " + ns && ret1 == 64 -> exit
 
 // ---------------------------------------------------------------------------------------------
 // C05: ARP request frames: broadcast Ethernet frame from the request's source MAC; who-has for the request's
